@@ -594,6 +594,25 @@ Section Sys.
     then pr_set s2 (fun p => mkProt (connected p) false false (parser_alive p) (pp_present p) (has_more p) (closing p))
     else s2.
 
+  (* ---- server side: RequestHandler.data_received on a connection that is closing ----------------------
+     (`self._force_close or self._close`, set by RequestHandler.close() / Server.pre_shutdown()): no new message
+     is accepted, the request being handled keeps receiving its body while the generated gate holds.
+     has_req: _current_request is not None; custom_pp: RequestHandler._payload_parser (an upgraded protocol's
+     reader) is set; the body parser of this model is HttpParser's own (pp_present). *)
+  Definition srv_data_received (fuel : nat) (closing_conn has_req custom_pp upgraded : bool) (s : st) (data : bytes) : st :=
+    if closing_conn then
+      if dg_srv_closing_feeds (negb (isnil data)) has_req (reof (re s)) (connected (pr s)) (parser_alive (pr s)) custom_pp upgraded
+      then parser_feed fuel s data else s
+    else parser_feed fuel s data.
+
+  (* BaseProtocol.resume_reading() on the server protocol: `if not self._upgraded: self.data_received(b"")` *)
+  Definition srv_resume_reading (fuel : nat) (closing_conn has_req custom_pp upgraded : bool) (s : st) : st :=
+    let s1 := pr_set s (fun p => mkProt (connected p) (tpaused p) false (parser_alive p) (pp_present p) (has_more p) (closing p)) in
+    let s2 := if upgraded then s1 else srv_data_received fuel closing_conn has_req custom_pp upgraded s1 [] in
+    if negb (rpaused (pr s2)) && connected (pr s2)
+    then pr_set s2 (fun p => mkProt (connected p) false false (parser_alive p) (pp_present p) (has_more p) (closing p))
+    else s2.
+
   (* ---- StreamReader, consumer side ------------------------------------------------------------------- *)
   Fixpoint drop_stale (sp : list N) (cur : N) : list N :=
     match sp with x :: sp' => if dg_split_stale x cur then drop_stale sp' cur else sp | [] => [] end.
